@@ -123,7 +123,15 @@ def gen_fit_data(rng, p, scale):
             q = [int(math.ceil(q[0])) + 1, int(math.ceil(q[0])) + 1 + int(math.ceil(hi_p + 3 * p)) + 1]
         dgms[0].append(q)
     single = nd == 1 and rng.random() < 0.5
-    return {"dgms": dgms, "forms": forms, "single": single, "skew": rng.random() < 0.7}
+    data = {"dgms": dgms, "forms": forms, "single": single, "skew": rng.random() < 0.7}
+    # the guarantee must hold for the values the handed-over objects denote: single precision can merge coordinates
+    # that differ in float64 (e.g. 500.001 / 500.003); such data fall back to float64 arrays
+    _, vals, _ = materialize_fit(data)
+    allp = np.vstack(vals)
+    cols = (allp[:, 0], allp[:, 1], allp[:, 1] - allp[:, 0])
+    if not all(float(c.max()) > float(c.min()) for c in cols):
+        data["forms"] = ["f64" if f == "f32" else f for f in forms]
+    return data
 
 
 def materialize_fit(d):
